@@ -67,7 +67,7 @@ def render_location(text, pos, endpos, lineno, indent, strip, out):
             continue
         strip = False
         out.append(indent + line.rstrip().expandtabs())
-    out.append(indent + lines[lineno].rstrip().expandtabs())
+    out.append(indent + (lines[lineno] if lineno < len(lines) else '').rstrip().expandtabs())
     out.append(indent + ' ' * pos + '^' * max(length, 1))
 
 
